@@ -191,10 +191,10 @@ Proof.
     apply Z.leb_le in H1. apply Z.ltb_lt in H2. unfold is_byte. lia. }
   eexists. split.
   - eapply FcTrans; [eapply FcTrans; [eapply FcTrans; [eapply FcTrans; [eapply FcTrans; [apply FcRefl|]|]|]|]|].
-    + apply (FcFeed c 1 1 _ bs Hb).
+    + apply (FcFeed c 1 1 _ bs).
     + apply FcProgress. vm_compute. reflexivity.
     + apply FcProgress. vm_compute. reflexivity.
     + apply FcProgress. vm_compute. reflexivity.
-    + eapply FcDeliver. vm_compute. reflexivity.
+    + eapply (FcDeliver c 1 1 _ _ _ _ _ [] []); [vm_compute; reflexivity|reflexivity].
   - vm_compute. split; reflexivity.
 Qed.
